@@ -26,6 +26,17 @@ DIRECTIVES = ['# xdoctest: +SKIP', '# xdoctest: +REQUIRES(%s)' % gd.UNMET_A, '# 
               '# xdoctest: -REQUIRES(%s)' % gd.UNMET_B]
 
 
+# REQUIRES(module:...) over a package generated next to the module under test ({PKG} = its name, unique per
+# case): existing / missing submodules, a missing package. Whether each exists is known by construction; the
+# answer must not depend on which doctest asked first (directive._MODNAME_EXISTS_CACHE is process-wide).
+MODULE_REQS = [('{PKG}', True), ('{PKG}.real_sub', True), ('{PKG}.missing_sub', False), ('{PKG}.real_sub.nope', False),
+               ('{PKG}_absent', False), ('{PKG}_absent.sub', False)]
+MODULE_DIRECTIVES = ['# xdoctest: +REQUIRES(module:%s)' % m for m, _ in MODULE_REQS] + \
+                    ['# xdoctest: +REQUIRES(module:{PKG})', '# xdoctest: +REQUIRES(module:{PKG}.real_sub)',
+                     '# xdoctest: -REQUIRES(module:{PKG}.missing_sub)', '# xdoctest: +REQUIRES(module:{PKG}.real_sub, module:{PKG})']
+DIRECTIVES_ALL = DIRECTIVES + MODULE_DIRECTIVES
+
+
 def item(kind, *args, **kw):
     d = {'kind': kind, 'args': list(args), 'want': kw.get('want'), 'inline': kw.get('inline')}
     return d
@@ -88,6 +99,8 @@ def gen_doc(rng, k, rich=True):
     unmatched = ''      # outputs since the last want (reference, fresh state)
     n = rng.randint(2, 7)
     muted = False
+    if rng.random() < 0.3:
+        items.append(item('dir', rng.choice(MODULE_DIRECTIVES)))
     for j in range(n):
         r = rng.random()
         if r < 0.22:
@@ -111,9 +124,9 @@ def gen_doc(rng, k, rich=True):
         elif r < 0.92:
             it = item('exit')
         else:
-            it = item('dir', rng.choice(DIRECTIVES))
+            it = item('dir', rng.choice(DIRECTIVES_ALL))
         if it['kind'] in ('bind', 'say', 'show') and rng.random() < 0.06:
-            it['inline'] = rng.choice(['# xdoctest: +SKIP', '# xdoctest: +REQUIRES(%s)' % gd.UNMET_A])
+            it['inline'] = rng.choice(['# xdoctest: +SKIP', '# xdoctest: +REQUIRES(%s)' % gd.UNMET_A] + MODULE_DIRECTIVES[:6])
         out = own_output(it, names)
         if it['kind'] in ('show', 'probe', 'say') and out is not None and not it.get('inline'):
             w = rng.random()
@@ -141,7 +154,7 @@ def gen_doc(rng, k, rich=True):
     # something left switched on at the very end
     r = rng.random()
     if r < 0.35:
-        items.append(item('dir', rng.choice(DIRECTIVES[:4])))
+        items.append(item('dir', rng.choice(DIRECTIVES[:4] + MODULE_DIRECTIVES[:6])))
     elif r < 0.45 and rich:
         items.append(item('filt'))
     elif r < 0.52 and rich:
@@ -149,22 +162,22 @@ def gen_doc(rng, k, rich=True):
     return items
 
 
-def render_doc(items, indent=8):
+def render_doc(items, indent=8, pkg='xvpkg'):
     pad = ' ' * indent
     out = []
     for it in items:
-        out.append(pad + '>>> ' + line_of(it))
+        out.append(pad + '>>> ' + line_of(it).replace('{PKG}', pkg))
         if it['want'] is not None:
             for wl in it['want'].rstrip('\n').split('\n'):
                 out.append(pad + wl)
     return '\n'.join(out) + '\n'
 
 
-def render_module(docs, top=''):
+def render_module(docs, top='', pkg='xvpkg'):
     src = HEADER % '\n'.join('%s = %d' % (n, v) for n, v in MODGLOBALS)
     src += top
     for k, items in enumerate(docs):
-        src += 'def f%d():\n    """\n    Example:\n%s    """\n\n' % (k, render_doc(items))
+        src += 'def f%d():\n    """\n    Example:\n%s    """\n\n' % (k, render_doc(items, pkg=pkg))
     return src
 
 
@@ -197,3 +210,52 @@ def gen_defaults(rng, prob=0.4):
     if rng.random() >= prob:
         return None
     return rng.choice(DEFAULTS[:5] * 3 + DEFAULTS[5:])
+
+
+# ------------------------------------------------------------------ doctests of TEXT files (pytest plugin)
+def gen_text_doc(rng, k):
+    """one Example block of a text file: no module, the namespace is seeded with __name__ = '__main__'"""
+    items = []
+    names = {}
+    for j in range(rng.randint(2, 6)):
+        r = rng.random()
+        if r < 0.28:
+            it = item('bind', rng.choice(LOCALS), 10 * (k + 1) + rng.randint(0, 3))
+        elif r < 0.50:
+            # mostly names this block has bound (passes alone), sometimes one only another block binds (NameError alone)
+            it = item('show', rng.choice(sorted(names)) if names and rng.random() < 0.75 else rng.choice(LOCALS))
+        elif r < 0.68:
+            it = item('probe', rng.choice(LOCALS))
+        elif r < 0.84:
+            it = item('name')
+        elif r < 0.92:
+            it = item('say', rng.randint(0, 9))
+        elif r < 0.95:
+            it = item('fail')
+        else:
+            it = item('dir', rng.choice(DIRECTIVES[:2]))
+        out = '__main__\n' if it['kind'] == 'name' else own_output(it, names)
+        if out is not None and rng.random() < 0.5:
+            it['want'] = out if rng.random() < 0.85 else '999\n'
+        items.append(it)
+        if it['kind'] == 'bind':
+            names[it['args'][0]] = it['args'][1]
+    return items
+
+
+def render_text_block(items):
+    lines = ['Example:']
+    for it in items:
+        lines.append('    >>> ' + ('print(__name__)' if it['kind'] == 'name' else line_of(it)))
+        if it['want'] is not None:
+            lines.extend('    ' + w for w in it['want'].rstrip('\n').split('\n'))
+    return '\n'.join(lines) + '\n'
+
+
+def render_text_file(docs, order):
+    """the blocks of `docs` in the given order (indices, repetitions allowed), separated by prose"""
+    out = ['A text file with doctests.\n']
+    for n, i in enumerate(order):
+        out.append('Section %d\n' % n)
+        out.append(render_text_block(docs[i]))
+    return '\n'.join(out)
